@@ -15,6 +15,7 @@ import math
 import struct
 
 import vlib
+import gen_surfconst
 from gens import surface as gen
 
 NAME = "PhreeqcVerif.Properties.C20"
@@ -242,12 +243,13 @@ def option_key(spec):
 
 
 def run(ctx):
+    gen_surfconst.generate(ctx)                 # translator: constants and hard-coded factors of the source → Gen/SurfConst.lean
     ok = ctx.prove([NAME])
     ctx.build_lib()
     exe = ctx.build_harness("ph_surface")
-    n = ctx.n(160, 2400)
+    n = ctx.n(600, 12000)
     if not ok:
-        n = max(n, 1200)
+        n = max(n, 3000)
     dbsp = {db: db_species(ctx, exe, db) for db in gen.DBS}
     ctx.cov["db_surface_species"] = {db: len(v) for db, v in dbsp.items()}
     specs = [gen.gen_case(ctx.rng, i) for i in range(n)]
@@ -331,8 +333,9 @@ def run(ctx):
                        "spec": byid[i], "db": byid[i]["db"], "input": texts[i], "cases_with_tie_failures": len(tie_broken)},
                       found_input=False)
     if not ok and not ctx.violations:
-        ctx.violation("proof obligation of C20 no longer checks and no failing input was found",
-                      {"broken": ctx.proof_broken}, found_input=False)
+        ctx.violation("proof obligation of C20 no longer checks (constants/factors extracted from the source differ from the "
+                      "model's, or a theorem broke) and no failing input was found",
+                      {"broken": ctx.proof_broken, "translator": ctx.cov.get("translator_surfconst")}, found_input=False)
 
 
 def report_failure(ctx, exe, spec, dbsp, c, vf, tf):
@@ -359,6 +362,7 @@ def report_failure(ctx, exe, spec, dbsp, c, vf, tf):
 
 
 def replay(ctx, data):
+    gen_surfconst.generate(ctx)
     ctx.prove([NAME])
     ctx.build_lib()
     exe = ctx.build_harness("ph_surface")
